@@ -22,7 +22,7 @@ RULE = ('case = one generated FGG spec with finite Z (non-recursive, linear, non
         'or spec with a >= 3-edge rule; distinct = spec hashes')
 ASSUMPTIONS = ['specs conditioned to spectral radius <= 0.9; float64 runs use tol=1e-12 and are compared with rtol 1e-7 (values) / 1e-5 (gradients); float32 runs use tol=1e-5 and rtol 5e-3 / 3e-2',
                'interpreter levels must agree to 1e-12 relative (same arithmetic, assertions are checks only)',
-               'bin/sum_product.py is run with -d -l 1e-12 and compared with rtol 1e-7']
+               'bin/sum_product.py is run with -d -l 1e-12 -k 10000 and compared with rtol 2e-10 (float64 accuracy: a silent float32 computation must not pass)']
 CLASSES = ('nonrec', 'linear', 'nonlinear', 'mixed')
 N_SUB = 2        # interpreter-level cases per run (each spawns 3 interpreters + the CLI)
 
@@ -204,6 +204,21 @@ for index in range(lo, hi):
                                                g={t: ([float(x).hex() for x in w.grad.reshape(-1).tolist()] if w.grad is not None else None) for t, w in info['weights'].items()})
                 except Exception as e:
                     out['results'][key] = dict(error=f'{type(e).__name__}: {e}'[:200])
+    # the way bin/sum_product.py -d works: float64 selected through the default dtype *after* import,
+    # semiring left to its default
+    old = torch.get_default_dtype()
+    torch.set_default_dtype(torch.float64)
+    try:
+        for method in ['fixed-point', 'newton'] + (['linear'] if lin else []):
+            key = f'{index}|real|{method}|defaulted-semiring'
+            try:
+                fgg, info = G.build_fgg(fggs, spec, 'real', None)
+                z = fggs.sum_product(fgg, method=method, tol=1e-12, kmax=10000).to_dense()
+                out['results'][key] = dict(z=[float(x).hex() for x in z.detach().reshape(-1).tolist()], g={}, dtype=str(z.dtype))
+            except Exception as e:
+                out['results'][key] = dict(error=f'{type(e).__name__}: {e}'[:200])
+    finally:
+        torch.set_default_dtype(old)
 print('RESULT ' + json.dumps(out))
 '''
 
@@ -274,6 +289,21 @@ def sub_case(tier, seed, index, k):
                     return len(xa) == len(xb) and all((x == y) or (x != x and y != y) or abs(x - y) <= 1e-12 * max(1.0, abs(x)) for x, y in zip(xa, xb))
                 if not cmp(rb['z'], ro['z']) or any(not cmp(rb['g'][t], ro['g'].get(t)) for t in rb['g']):
                     viols.append(C.viol(f'interpreter:{level}:result-differs', f'{key}: results differ between debug and {level}: {rb["z"][:3]} vs {ro["z"][:3]}'))
+    # float64 selected through the default dtype with a defaulted semiring must equal the explicitly typed float64 run
+    for level, o in outs.items():
+        for key, r in o['results'].items():
+            if not key.endswith('|defaulted-semiring') or 'error' in r:
+                if key.endswith('|defaulted-semiring') and 'error' in r:
+                    viols.append(C.viol(f'defaulted-semiring:{level}:error', f'{key}: {r["error"]}'))
+                continue
+            ref_ = o['results'].get(key.replace('|defaulted-semiring', '|False'))
+            if ref_ is None or 'error' in ref_:
+                continue
+            obs['interpreter_results_compared'] += 1
+            xa = [float.fromhex(x) for x in r['z']]
+            xb = [float.fromhex(x) for x in ref_['z']]
+            if r.get('dtype') != 'torch.float64' or len(xa) != len(xb) or any(not ((x == y) or abs(x - y) <= 1e-10 * max(1e-3, abs(y))) for x, y in zip(xa, xb)):
+                viols.append(C.viol(f'defaulted-semiring:{level}:differs', f'{key}: default dtype float64 + default semiring gives {xa[:3]} ({r.get("dtype")}), explicit float64 semiring gives {xb[:3]}'))
     # command-line tool under -OO
     tmpdir = os.path.join(env.VERIF, 'out', 'tmp')
     os.makedirs(tmpdir, exist_ok=True)
@@ -305,7 +335,8 @@ def sub_case(tier, seed, index, k):
                 viols.append(C.viol('cli:unparsable', f'first output line {lines[:1]}: {e}', context=ctx))
                 continue
             obs['cli_values_compared'] += 1
-            msg = C.close_tensor(z.reshape(zref.shape), zref, 'float64', rtol=1e-7, atol=1e-9)
+            # -d selects float64: the printed value must have float64 accuracy (a float32 computation is ~1e-8 off)
+            msg = C.close_tensor(z.reshape(zref.shape), zref, 'float64', rtol=2e-10, atol=1e-11)
             if msg:
                 viols.append(C.viol('cli:value', msg, context=ctx, spec=spec))
         try:
